@@ -215,7 +215,7 @@ CHECKS = {
         "level": "exploration",
         "rule": "case = one execution of a scenario: a tower prepared by a model-checked sequential setup, then 2-3 real OS threads (chain thread delivering one "
                 "poll = 1 block, or a disconnection + 2 blocks; one or two API threads with register / add (new, same twice, update, late) / get_appointment / "
-                "get_subscription_info) under the serialising PCT scheduler (every hooked lock acquisition/release/condvar wait is a scheduling point; 0-3 "
+                "get_subscription_info; 14 scenarios incl. a renewal racing with the block that purges that user) under the serialising PCT scheduler (every hooked lock acquisition/release/condvar wait is a scheduling point; 0-3 "
                 "priority change points) or free-running with seeded delays; and, unscheduled, against the real teosd binary (prepared database put in place, teosd "
                 "bootstrapped by its own main.rs, API threads as real HTTP/gRPC clients and the poll granted by the fake bitcoind after seeded 0-4 ms delays; the "
                 "counters real_teosd_matched_reference[scenario#k] show which sequential orders the real runs looked like). Oracle: (replies with all fields, final users/appointments/trackers rows, multiset "
